@@ -289,11 +289,7 @@ func moveOutDir(w *bytes.Buffer, value json.RawMessage,
 	case *syntax.TypedMapType:
 		keys := make([]string, 0, len(valueMap))
 		for k := range valueMap {
-			if err := syntax.IsLegalUnixFilename(k); err != nil {
-				util.PrintError(err, "cannot create out directory %q", k)
-			} else {
-				keys = append(keys, k)
-			}
+			keys = append(keys, k)
 		}
 		sort.Strings(keys)
 		p := syntax.StructMember{
@@ -302,6 +298,14 @@ func moveOutDir(w *bytes.Buffer, value json.RawMessage,
 		p.CacheIsFile(t.Elem)
 		for i, k := range keys {
 			writeKey(i, k)
+			if err := syntax.IsLegalUnixFilename(k); err != nil {
+				// Keep the value, where it is, in the outputs.
+				util.PrintError(err, "cannot create out directory %q", k)
+				if _, err := w.Write(valueMap[k]); err != nil {
+					errs = append(errs, err)
+				}
+				continue
+			}
 			p.Id = k
 			if err := moveOutFiles(w,
 				&p,
